@@ -579,7 +579,7 @@ Inductive qcase :=
 | QDir (o : id) (modelled : list str) (d : list str)
 | QGet (o : id) (n : str) (allow_unsafe is_instance in_dir : bool) (obs : list cname)
 | QValues (o : id) (d : list str) (allow_unsafe is_instance : bool) (obs : list (str * cname))
-| QItems (o : id) (got_safe got_unsafe has_iter_attr ret_annot iterated iter_hook truth_hook : bool).
+| QItems (o : id) (got_safe got_unsafe has_iter_attr ret_annot iterated iter_hook truth_hook all_iter : bool).
 
 Definition no_getattr (hs : list hook) : list hook :=
   filter (fun k => negb (hook_eqb k HGetattr)) hs.
@@ -612,13 +612,14 @@ Definition chk (c : qcase) : bool :=
       else cnames_eqb (filter_get_name H o n allow_unsafe is_instance true in_dir) obs
   | QValues o d allow_unsafe is_instance obs =>
       named_eqb (filter_values H o d allow_unsafe is_instance (fun _ => true)) obs
-  | QItems o got_safe got_unsafe has_iter_attr ret_annot iterated iter_hook truth_hook =>
+  | QItems o got_safe got_unsafe has_iter_attr ret_annot iterated iter_hook truth_hook all_iter =>
       (* accesses: the implementation may do no more than the model predicts *)
       implb got_safe (negb (Nat.eqb (length (compiled_simple_getitem H o false)) 0)) &&
       implb got_unsafe (negb (Nat.eqb (length (compiled_simple_getitem H o true)) 0)) &&
       implb iterated (negb (Nat.eqb (length (iter_list H o has_iter_attr ret_annot)) 0)) &&
       implb iter_hook (user_hook H (type_of H o) s_iter) &&
-      implb truth_hook (user_truth_hook H o)
+      implb truth_hook (user_truth_hook H o) &&
+      implb all_iter (negb (Nat.eqb (length (getitem_all_values H o)) 0))
   end.
 '''
 
@@ -783,6 +784,7 @@ def corr_task(task):
                                                 g_list(d, N.g, 'str')), (o,))
             has_user_getattribute = any(
                 isinstance(class_dict(c).get('__getattribute__'), types.FunctionType) for c in class_mro(type(r)))
+            ni = 0
             for n in names:
                 # ---- getattr_static
                 C.clear()
@@ -805,7 +807,8 @@ def corr_task(task):
                     (o, n))
                 # ---- is_allowed_getattr
                 verdict = None
-                for safe in (True, False):
+                ni += 1
+                for safe in ((True, False) if ni % 2 else (True,)):
                     C.clear()
                     try:
                         has, isd, ann = acc.is_allowed_getattr(n, safe=safe)
@@ -949,6 +952,13 @@ def _items_case(b, enc, acc, r, o, add, out, A):
                                     % _describe(b, r)))
     C.clear()
     try:
+        allv = acc.py__getitem__all_values()
+    except Exception:
+        allv = 'exc'
+    all_iter = any(k[0] in ('iter', 'next') for k in C) or (
+        isinstance(allv, list) and isinstance(r, (list, tuple, dict)) and len(allv) > 0)
+    C.clear()
+    try:
         acc.has_iter()
     except Exception:
         pass
@@ -960,9 +970,9 @@ def _items_case(b, enc, acc, r, o, add, out, A):
         pass
     truth_hook = any(k[0] in ('bool', 'len') for k in C)
     C.clear()
-    add('items', '(QItems %d %s %s %s false %s %s %s)' % (
+    add('items', '(QItems %d %s %s %s false %s %s %s %s)' % (
         o, g_bool(got[True]), g_bool(got[False]), g_bool(it is not None), g_bool(iterated),
-        g_bool(iter_hook), g_bool(truth_hook)), (o,))
+        g_bool(iter_hook), g_bool(truth_hook), g_bool(all_iter)), (o,))
 
 
 def _describe(b, r):
@@ -1122,7 +1132,43 @@ def expected_infer(obj):
     return type(obj).__name__, 'instance'
 
 
-def explain_hooks(b, graph, p, form, delta, names_ctx):
+def _fn_instance_attr(p, route):
+    """The path ends in an instance-dict attribute holding a function, on an instance of a class
+    that has a source file (MixedName.infer then takes what static analysis finds under that name)."""
+    if not isinstance(p['target'], types.FunctionType) or route != 'file' or p.get('recv') is None:
+        return False
+    r = p['recv']
+    d = real_idict(r)
+    return not isinstance(r, type) and d is not None and p.get('name') in d
+
+
+def getdoc_explains(b, recv_obj, n, key):
+    """The first hit for n along the receiver's MRO is a doc-less function / property / slot and
+    getattr(base, n) on a LATER base runs exactly the hook `key` (what inspect._finddoc does)."""
+    T = recv_obj if isinstance(recv_obj, type) else type(recv_obj)
+    mro = list(class_mro(T))
+    for i, c in enumerate(mro):
+        if n not in class_dict(c):
+            continue
+        v = class_dict(c)[n]
+        f = v.fget if isinstance(v, property) else getattr(v, '__func__', v)
+        if type(f) not in (types.FunctionType, types.MemberDescriptorType, types.GetSetDescriptorType) \
+                or f.__doc__ is not None:
+            return False
+        hit = False
+        for base in mro[i + 1:]:
+            b.C.clear()
+            try:
+                getattr(base, n)
+            except Exception:
+                pass
+            hit = hit or key in b.C
+            b.C.clear()
+        return hit
+    return False
+
+
+def explain_hooks(b, graph, p, form, delta, names_ctx, d1, attr_hits):
     """Classify the hooks of the eight kinds that fired in a safe-mode query.  Returns list of (cls, key)."""
     from jedi.inference.compiled import access as A
     out = []
@@ -1148,11 +1194,28 @@ def explain_hooks(b, graph, p, form, delta, names_ctx):
                                 cls = 'metaclass-descriptor-run'
         elif kind == 'iter':
             if form in ITER_FORMS and target is not None and owner == id(target) and 'next' not in kinds \
-                    and 'getitem' not in kinds:
+                    and 'getitem' not in kinds and cnt == 1:
                 cls = 'iter-probe'
+            elif form == 'item' and target is not None and owner == id(target) and cnt == 1 \
+                    and isinstance(target, (list, tuple)) and type(target) not in (list, tuple):
+                cls = 'getitem-all-values-iterates-subclass'
+        elif kind == 'next':
+            if form == 'item' and target is not None and owner == id(target) \
+                    and isinstance(target, (list, tuple)) and type(target) not in (list, tuple):
+                cls = 'getitem-all-values-iterates-subclass'
         elif kind in ('bool', 'len'):
-            if form in BOOL_FORMS and target is not None and owner == id(target):
+            if form in BOOL_FORMS and target is not None and owner == id(target) and cnt == 1:
                 cls = 'truth-probe'
+        if cls == 'unexplained-hook' and kind in ('prop', 'get'):
+            # inspect.getdoc() of a doc-less function / property / slot walks the MRO with getattr(base, name)
+            if key in d1:
+                recv_obj, n = p.get('recv'), p.get('name')
+            else:
+                recv_obj, n = target, attr_hits.get(key, (None, None))[0]
+                if attr_hits.get(key, (None, ''))[1] not in ('docstring', 'get_signatures', 'description', 'type'):
+                    n = None
+            if recv_obj is not None and n is not None and getdoc_explains(b, recv_obj, n, key):
+                cls = 'getdoc-walks-bases'
         out.append((cls, key, cnt))
     return out
 
@@ -1201,21 +1264,27 @@ def api_task(task):
                     out['exc']['%s %s' % (err['exc'], err['site'])] += 1
                 d1 = +C
                 names = None
+                attr_hits = {}
                 names_ctx = list(p['attrs'])
                 if err is None and meth == 'complete':
                     names = [c.name for c in res]
                     names_ctx += names
                     if form in ('dot', 'assign') and p['plain'] and is_user_target(b, p['target']):
-                        try:
-                            for c in res:
-                                if not c.name.startswith('__'):
-                                    c.type, c.description
-                                    c.docstring()
-                                    c.get_signatures()
-                                    c.infer()
-                        except Exception as e:
-                            e2 = common.exc_sig(e)
-                            out['exc']['attrs: %s %s' % (e2['exc'], e2['site'])] += 1
+                        for c in res:
+                            if c.name.startswith('__'):
+                                continue
+                            for acc_name, fn in (('type', lambda: c.type), ('description', lambda: c.description),
+                                                 ('docstring', c.docstring), ('get_signatures', c.get_signatures),
+                                                 ('infer', c.infer)):
+                                before = +C
+                                try:
+                                    fn()
+                                except Exception as e:
+                                    e2 = common.exc_sig(e)
+                                    out['exc']['attrs: %s %s' % (e2['exc'], e2['site'])] += 1
+                                for k, v in (+C).items():
+                                    if v > before.get(k, 0) and k[0] in EIGHT:
+                                        attr_hits.setdefault(k, (c.name, acc_name))
                 inferred = None
                 if err is None and meth == 'infer':
                     try:
@@ -1236,10 +1305,11 @@ def api_task(task):
                         out['unsafe_hits'][k[0]] += 1
                 # ---- clause 1: safe mode runs none of the eight hooks
                 if safe and eight:
-                    for cls, key, cnt in explain_hooks(b, graph, p, form, eight, names_ctx):
+                    for cls, key, cnt in explain_hooks(b, graph, p, form, eight, names_ctx, d1, attr_hits):
                         out['dev'].append(dict(sig=dict(stream='api', cls=cls, hook=key[0]),
                                                data=dict(rec, hook=list(key[:2]), count=cnt,
-                                                         during='query' if key in d1 else 'result attributes'),
+                                                         during='query' if key in d1 else
+                                                         'Completion(%r).%s' % attr_hits.get(key, ('?', '?'))),
                                                what='safe mode: %s.%s on %r ran user hook %s of %s' % (
                                                    'Interpreter', meth, code, key[0], key[1])))
                 # ---- clause 2: names after `obj.` include dir(obj)
@@ -1251,8 +1321,11 @@ def api_task(task):
                     C.clear()
                     missing = sorted(set(truth) - set(names))
                     out['n']['dir_checks'] += 1
+                    cls2 = 'dir-missing'
+                    if _fn_instance_attr(p, route) and not names:
+                        cls2 = 'mixed-function-attr-from-tree'
                     if missing:
-                        out['dev'].append(dict(sig=dict(stream='api', cls='dir-missing'),
+                        out['dev'].append(dict(sig=dict(stream='api', cls=cls2),
                                                data=dict(rec, missing=missing[:12], n_dir=len(truth), n_offered=len(names),
                                                          target=repr(type(p['target']))),
                                                what='names %r of dir(%s) are not offered after %r' % (
@@ -1265,8 +1338,14 @@ def api_task(task):
                     if isinstance(p['target'], type) and inferred == [(type(p['target']).__name__, 'class')]:
                         ok = True     # jedi names a class that has a custom metaclass after the metaclass
                         out['n']['infer_class_named_after_metaclass'] += 1
+                    cls3 = 'infer-wrong-class'
+                    if type(p['target']) is types.SimpleNamespace and len(inferred) == 1 \
+                            and inferred[0][0].startswith('<types.SimpleNamespace object at'):
+                        cls3 = 'namespace-name-is-repr'
+                    if _fn_instance_attr(p, route):
+                        cls3 = 'mixed-function-attr-from-tree'
                     if not ok:
-                        out['dev'].append(dict(sig=dict(stream='api', cls='infer-wrong-class'),
+                        out['dev'].append(dict(sig=dict(stream='api', cls=cls3),
                                                data=dict(rec, expected=list(exp), inferred=inferred),
                                                what='infer on plain path %r reports %r, stored object is %r' % (
                                                    code, inferred, exp)))
@@ -1289,9 +1368,9 @@ def _graph_for_json(g):
 
 
 def stream_correspondence(ctx, tmpdir, intensify):
-    n = ctx.n(14, 70)
+    n = ctx.n(12, 70)
     if intensify:
-        n = max(n, 40)
+        n = max(n, 36)
     tasks, graphs = [], []
     for i in range(n):
         exotic = i % 3 == 2
@@ -1352,7 +1431,7 @@ def stream_correspondence(ctx, tmpdir, intensify):
 
 
 def stream_api(ctx, tmpdir):
-    n = ctx.n(28, 150)
+    n = ctx.n(24, 150)
     tasks, graphs = [], []
     for i in range(n):
         g = gen_valid_graph(ctx.rng, exotic=False, idx=i)
@@ -1423,6 +1502,8 @@ def run(ctx):
     mods = os.path.join(ctx.tmp, 'mods')
     os.makedirs(mods, exist_ok=True)
     for f in (stream_correspondence, stream_api):
+        if os.environ.get('C13_DEV_ONLY') and os.environ['C13_DEV_ONLY'] not in f.__name__:
+            continue      # development aid only; the evidence then shows a single stream
         t = time.time()
         if f is stream_correspondence:
             f(ctx, mods, bool(changed))
